@@ -1,6 +1,7 @@
 import Hgxv.Model.C05
 /-! Helper lemmas for the C05 theorems (core Lean only). -/
-namespace AL
+namespace C05AL
+open AL
 variable {α β : Type} [DecidableEq α]
 
 theorem mem_of_get? (l : List (α × β)) (k : α) (v : β) (h : get? l k = some v) : (k, v) ∈ l := by
@@ -27,15 +28,15 @@ theorem mem_iff_get? (l : List (α × β)) (hnd : (keys l).Nodup) (k : α) (v : 
     (k, v) ∈ l ↔ get? l k = some v :=
   ⟨get?_of_mem_nodup l k v hnd, mem_of_get? l k v⟩
 
-theorem set_same (l : List (α × β)) (k : α) (v : β) (h : get? l k = some v) : set l k v = l := by
+theorem set_same (l : List (α × β)) (k : α) (v : β) (h : get? l k = some v) : AL.set l k v = l := by
   induction l with
   | nil => simp at h
-  | cons hd t ih => grind [get?, set]
+  | cons hd t ih => grind [get?, AL.set]
 
-theorem set_of_none (l : List (α × β)) (k : α) (v : β) (h : get? l k = none) : set l k v = l ++ [(k, v)] := by
+theorem set_of_none (l : List (α × β)) (k : α) (v : β) (h : get? l k = none) : AL.set l k v = l ++ [(k, v)] := by
   induction l with
-  | nil => simp [set]
-  | cons hd t ih => grind [get?, set]
+  | nil => simp [AL.set]
+  | cons hd t ih => grind [get?, AL.set]
 
 theorem get?_append (l m : List (α × β)) (k : α) :
     get? (l ++ m) k = match get? l k with | some v => some v | none => get? m k := by
@@ -54,7 +55,7 @@ theorem has_iff (l : List (α × β)) (k : α) : has l k = true ↔ k ∈ keys l
   rw [mem_keys_iff]; rfl
 
 theorem keys_set (l : List (α × β)) (k : α) (v : β) :
-    keys (set l k v) = if k ∈ keys l then keys l else keys l ++ [k] := by
+    keys (AL.set l k v) = if k ∈ keys l then keys l else keys l ++ [k] := by
   by_cases h : k ∈ keys l
   · simp only [h, ↓reduceIte]; exact keys_set_of_mem l k v ((mem_keys_iff l k).1 h)
   · simp only [h, ↓reduceIte]; exact keys_set_of_not_mem l k v ((get?_eq_none_iff l k).2 h)
@@ -94,7 +95,7 @@ theorem ext (l m : List (α × β)) (hk : keys l = keys m) (hnd : (keys l).Nodup
       have := hg k' (by simp only [keys, List.map_cons, List.mem_cons]; right; exact hk')
       simpa [get?, hne] using this
 
-end AL
+end C05AL
 
 namespace C05
 variable {κ : Type} [DecidableEq κ] [Keyed κ]
@@ -107,12 +108,12 @@ theorem keys_addNodeL (l : List (Node × Meta)) (n : Node) (md : Meta) :
   cases h : AL.get? l n with
   | none =>
     have : n ∉ AL.keys l := (AL.get?_eq_none_iff l n).1 h
-    rw [if_neg this, AL.keys_append]; rfl
+    rw [if_neg this, C05AL.keys_append]; rfl
   | some cur =>
-    have hm : n ∈ AL.keys l := by rw [AL.mem_keys_iff, h]; rfl
+    have hm : n ∈ AL.keys l := by rw [C05AL.mem_keys_iff, h]; rfl
     simp only [hm, ↓reduceIte]
     split
-    · rw [AL.keys_set]; simp [hm]
+    · rw [C05AL.keys_set]; simp [hm]
     · rfl
 
 theorem addNodeL_touch_present (l : List (Node × Meta)) (n : Node) (h : n ∈ AL.keys l) :
@@ -123,7 +124,7 @@ theorem addNodeL_touch_present (l : List (Node × Meta)) (n : Node) (h : n ∈ A
   | some cur =>
     simp only
     split
-    · next hc => subst hc; exact AL.set_same l n [] hg
+    · next hc => subst hc; exact C05AL.set_same l n [] hg
     · rfl
 
 theorem addNodeL_touch_absent (l : List (Node × Meta)) (n : Node) (h : n ∉ AL.keys l) :
@@ -139,9 +140,9 @@ theorem get?_addNodeL_touch (l : List (Node × Meta)) (n m : Node) :
     · simp [hm]
     · have : m ≠ n := by intro e; subst e; exact hm h
       simp [hm, this, (AL.get?_eq_none_iff l m).2 hm]
-  · rw [addNodeL_touch_absent l n h, AL.get?_append]
+  · rw [addNodeL_touch_absent l n h, C05AL.get?_append]
     by_cases hm : m ∈ AL.keys l
-    · obtain ⟨v, hv⟩ := Option.isSome_iff_exists.1 ((AL.mem_keys_iff l m).1 hm)
+    · obtain ⟨v, hv⟩ := Option.isSome_iff_exists.1 ((C05AL.mem_keys_iff l m).1 hm)
       simp [hm, hv]
     · simp only [(AL.get?_eq_none_iff l m).2 hm, hm, ↓reduceIte]
       by_cases e : m = n
